@@ -9,6 +9,9 @@ Models/Print.v, specification Models/UsingSpec.v).  Correspondence:
   exec_print_using   the real TerminalDevice._exec_print USING hand-over on
              constructed stacks,
   compiled_using     compiled PRINT USING statements at the six configurations,
+  compiled_repeat    programs that execute ONE PRINT USING statement several
+             times with different format strings (array element in a loop,
+             format grown at run time, SUB with a format parameter),
 against the extracted model.  Every result on which model and code agree is
 then judged against the Coq specification (Models/UsingSpec.v: equal inside
 the guard - theorem C19_using_partial -, a listed defect class outside) and
@@ -555,6 +558,114 @@ def compiled_cases(fmts_rngs, kinds_of):
     return cases, rule
 
 
+# --------------------------------------------------------------------------
+# one PRINT USING statement executed several times with different formats
+
+NUMF = ['[###.##]', '<+#.#>', '#,###.## total', '##.#', 'a_#b #.###', '-##.##', '+##.# ', 'x#.####']
+STRF = ['&', '!', '[&] _!', 'x ! y', '& items']
+REP_NUM = [NUM[i] for i in (2, 4, 5, 14, 22, 8, 6, 1)]     # DOUBLE values with a literal
+GROW = ['#.', '##.', '+#.', 'v=#,###.']
+
+
+def repeat_programs(tier):
+    """programs in which ONE PRINT USING statement runs three times, each time
+    with another format string: format from a string array in a FOR loop,
+    format grown at run time, SUB with a format parameter.  Cases carry
+    (source, [(format, value cell) per execution], end separator)."""
+    progs = []
+    n = 2 if tier == 'quick' else len(NUMF)
+    for k in range(n):
+        fs = [NUMF[(k + 3 * j) % len(NUMF)] for j in range(3)]
+        v, lit = REP_NUM[k % len(REP_NUM)]
+        end = [None, ';', ','][k % 3]
+        src = 'DIM f$(1 TO 3)\n' + ''.join(f'f$({j + 1}) = "{f}"\n' for j, f in enumerate(fs)) + \
+              f'FOR i% = 1 TO 3\nPRINT USING f$(i%); {lit}{end or ""}\nNEXT\n'
+        progs.append((src, [(f, v) for f in fs], end))
+        # SUB with a format parameter, another value at every call
+        vs = [REP_NUM[(k + j) % len(REP_NUM)] for j in range(3)]
+        calls = [f'show "{f}", {vs[j][1]}' if j != 1 else f'CALL show("{f}", {vs[j][1]})'
+                 for j, f in enumerate(fs)]
+        src = f'SUB show (f$, v#)\nPRINT USING f$; v#{end or ""}\nEND SUB\n' + '\n'.join(calls) + '\n'
+        progs.append((src, [(f, vs[j][0]) for j, f in enumerate(fs)], end))
+    for k in range(1 if tier == 'quick' else len(GROW)):
+        base = GROW[k]
+        v, lit = REP_NUM[(k + 2) % len(REP_NUM)]
+        end = [';', None][k % 2]
+        src = f'f$ = "{base}"\nFOR i% = 1 TO 3\nf$ = f$ + "#"\nPRINT USING f$; {lit}{end or ""}\nNEXT\n'
+        progs.append((src, [(base + '#' * j, v) for j in (1, 2, 3)], end))
+    for k in range(1 if tier == 'quick' else len(STRF)):
+        fs = [STRF[(k + 2 * j) % len(STRF)] for j in range(3)]
+        v, lit = STR[k % len(STR)]
+        src = 'DIM f$(1 TO 3)\n' + ''.join(f'f$({j + 1}) = "{f}"\n' for j, f in enumerate(fs)) + \
+              f'FOR i% = 1 TO 3\nPRINT USING f$(i%); {lit}\nNEXT\n'
+        progs.append((src, [(f, v) for f in fs], None))
+        src = 'SUB shows (f$, s$)\nPRINT USING f$; s$;\nEND SUB\n' + \
+              '\n'.join(f'shows "{f}", {lit}' for f in fs) + '\n'
+        progs.append((src, [(f, v) for f in fs], ';'))
+    cases = []
+    for src, execs, end in progs:
+        for level in (0, 2):
+            cases.append({'src': src, 'level': level, 'debug': level == 2, 'execs': execs, 'end': end})
+    rule = (f'compiled_repeat: {len(progs)} programs in which one PRINT USING statement is executed three '
+            f'times with three different format strings (string array element in a FOR loop, format grown '
+            f'at run time, SUB with a format parameter; numeric, &, !, literal and escape formats inside '
+            f'the guard) at levels 0 and 2: every terminal_print text against the model and the Coq '
+            f'specification of its own format')
+    return cases, rule
+
+
+def repeat_jobs(c):
+    """per execution: job 4 and job 3 of the statement with that format"""
+    out = []
+    for f, v in c['execs']:
+        j4, j3 = stmt_jobs({'fmt': f, 'items': [v] + ([c['end']] if c['end'] else [])})
+        out += [j4, j3]
+    return out
+
+
+def judge_repeat(ctx, cases, raws, outs):
+    """outs: flat list, 2 model results per execution"""
+    suite = 'compiled_repeat'
+    verdicts = []
+    if bad_results(ctx, suite, raws, outs):
+        return verdicts
+    pos = 0
+    for c, raw in zip(cases, raws):
+        k = len(c['execs'])
+        mo = outs[pos:pos + 2 * k]
+        pos += 2 * k
+        text = f"-O{c['level']}{' -g' if c['debug'] else ''}: " + c['src'].replace('\n', ' : ')
+        if 'exc' in raw and 'events' not in raw:
+            verdicts.append(ctx.report(f"C19/compile-failed({raw['exc']})",
+                                       {'suite': suite, 'case': c, 'raw': raw, 'text': text}, False))
+            continue
+        calls = [l2s(e[1]) for e in raw['events'] if e[0] == 'terminal_print']
+        if 'exc' in raw:
+            impl = [2, EXC.get(raw['exc'], 99)]
+        elif raw['outcome'][1] is not None:
+            impl = [1]
+        else:
+            impl = [0, calls]
+        model, spec, reasons = [0, []], [], []
+        for i in range(k):
+            mp, m3 = mo[2 * i], mo[2 * i + 1]
+            if model[0] == 0:
+                if mp[0] != 0:
+                    model = mp
+                else:
+                    model[1] += [l2s(x) for x in mp[1]]
+            reasons += m3[1]
+            if spec is not None and m3[2]:
+                spec += [l2s(m3[2][0])] + ([] if c['end'] else ['\r\n'])
+            else:
+                spec = None
+        verdicts.append(judge(ctx, suite, dict(c), impl, model, reasons, spec, text))
+    ctx.count(suite, len(cases), set(c['src'] for c in cases))
+    if cases:
+        ctx.sample({'suite': suite, 'case': cases[0]['src']})
+    return verdicts
+
+
 def main(tier, seed):
     ctx = Ctx(PROP, tier, seed, 'proof')
     ctx.trusted_base = [
@@ -605,6 +716,7 @@ def main(tier, seed):
     casesX = [{'fmt': f, 'vals': [v]} for f in SHAPES for v in EXTREME + [n[0] for n in NUM]]
     casesB, ruleB = stack_cases(tier, kinds_of)
     casesC, ruleC = compiled_cases(sfr, kinds_of)
+    casesR, ruleR = repeat_programs(tier)
     ctx.rule.append(f'scanner: every format string of length <= {min(smax, 5)} over the {len(ALPHA)} '
                     f'characters {ALPHA!r}' + (' and a seeded 30% of those of length 6' if smax == 6 else '')
                     + f' ({len(fmts_all)} strings): fmt_parts of the real constructor = parse_format '
@@ -616,26 +728,32 @@ def main(tier, seed):
                     f'2^53+1')
     ctx.rule.append(ruleB)
     ctx.rule.append(ruleC)
+    ctx.rule.append(ruleR)
 
     # ---- one implementation pass, one model pass
     impl_cases = [fmt_impl(c) for c in casesA + casesX] + [stack_impl(c) for c in casesB] + \
-                 [['src', c] for c in casesC]
+                 [['src', c] for c in casesC] + [['src', c] for c in casesR]
     jB, jC = [stmt_jobs(c) for c in casesB], [stmt_jobs(c) for c in casesC]
     jobs = [fmt_job(c) for c in casesA + casesX] + [j[0] for j in jB] + [j[1] for j in jB] + \
-           [j[0] for j in jC] + [j[1] for j in jC]
+           [j[0] for j in jC] + [j[1] for j in jC] + [j for c in casesR for j in repeat_jobs(c)]
     raws, outs = run_both(exe, impl_cases, jobs)
     mark('implementation+model')
     nA, nX, nB, nC = len(casesA), len(casesX), len(casesB), len(casesC)
-    rA, rX, rB, rC = (raws[:nA], raws[nA:nA + nX], raws[nA + nX:nA + nX + nB], raws[nA + nX + nB:])
+    rA, rX, rB, rC = (raws[:nA], raws[nA:nA + nX], raws[nA + nX:nA + nX + nB],
+                      raws[nA + nX + nB:nA + nX + nB + nC])
+    rR = raws[nA + nX + nB + nC:]
     oA, oX = outs[:nA], outs[nA:nA + nX]
     p = nA + nX
     oB4, oB3, oC4, oC3 = (outs[p:p + nB], outs[p + nB:p + 2 * nB],
-                          outs[p + 2 * nB:p + 2 * nB + nC], outs[p + 2 * nB + nC:])
+                          outs[p + 2 * nB:p + 2 * nB + nC],
+                          outs[p + 2 * nB + nC:p + 2 * nB + 2 * nC])
+    oR = outs[p + 2 * nB + 2 * nC:]
     judge_formatter(ctx, 'formatter', casesA, rA, oA)
     judge_scanner(ctx, fmts_all, [rA[first_case[f]] for f in fmts_all], parts_all[:len(fmts_all)])
     judge_formatter(ctx, 'formatter_extreme', casesX, rX, oX)
     judge_stack(ctx, casesB, rB, oB4, oB3)
     judge_compiled(ctx, casesC, rC, oC4, oC3)
+    judge_repeat(ctx, casesR, rR, oR)
     mark('judging')
     vm_recheck(ctx, casesA, oA)
     mark('vm_compute-recheck')
@@ -686,6 +804,9 @@ def replay(path):
     elif suite == 'compiled_using':
         raws, outs = run_both(exe, [['src', case]], list(stmt_jobs(case)))
         judge_compiled(ctx, [case], raws, outs[:1], outs[1:])
+    elif suite == 'compiled_repeat':
+        raws, outs = run_both(exe, [['src', case]], repeat_jobs(case))
+        judge_repeat(ctx, [case], raws, outs)
     else:
         print('no runnable case in this replay file')
         return 1
